@@ -110,8 +110,6 @@ def triggers(triples, fmt, opts=None):
     for s, p, o in triples:
         if isinstance(o, Literal) and o.datatype is not None:
             d = str(o.datatype)
-            if fam == "turtle" and d == XS + "decimal" and "." not in str(o) and o.value is not None:
-                t.append("C03-turtle-decimal-without-fraction")
             if fam == "turtle" and d == XS + "double" and o.value is not None:
                 t.append("C03-turtle-double-shorthand")
     return t
@@ -121,7 +119,7 @@ def weak_key(carve):
     """weakened comparison: numeric literals hit by a listed Turtle-shorthand finding are compared by value, everything else exactly"""
     def wk(t):
         k = lkey(t)
-        if k and k[0] == "l" and k[2] in (XS + "decimal", XS + "double") and isinstance(t, Literal) and t.value is not None:
+        if k and k[0] == "l" and k[2] == XS + "double" and isinstance(t, Literal) and t.value is not None:
             try:
                 return ("num", k[2], float(t.value) if k[2].endswith("double") else str(t.value.normalize()))
             except Exception:
